@@ -58,7 +58,7 @@ def run(ctx):
     facts = ctx.facts() or {}
     thms = ctx.build_and_audit(["NutsProofs.Props.C17"])
     required = ["allowed_lists_asymmetric", "accept_parseJWT", "accept_parseJWS", "accept_dpop", "accept_dagTx", "accept_dagTx_partial", "accept_dagTx_of_fact",
-                "fact_dag_rejects_private_jwk", "fact_dag_framing_body", "fact_dag_kid_xor_jwk", "fact_alg_fits_key", "fits_is_the_algorithm_of_the_curve",
+                "fact_dag_rejects_private_jwk", "fact_dag_framing_body", "fact_dag_kid_xor_jwk", "fact_alg_fits_key", "fits_is_the_algorithm_of_the_curve", "fact_verifiers_hold_no_key_state", "key_is_current_resolution",
                 "accept_apiToken", "accept_jar", "accept_vcJwt", "accept_vcJsonLd", "fact_vcJsonLd", "fact_wiring", "accept_authzV1", "accept_ldProof", "fact_authzV1",
                 "authzV1_without_kid_check_accepts_foreign_key", "header_keys_ignored", "apiToken_key_header_rejected",
                 "parseJWS_splitCompact_mode_accepts_two_uncovered", "dagTx_without_private_check_accepts_private_jwk",
@@ -160,6 +160,10 @@ def run(ctx):
             # byte-identical to the canonical compact serialisation (verdict computed by the harness's own re-encode-and-compare)
             if not v and c == "vcld" and line == "accept" and op.get("v", {}).get("nproofs") != 1:
                 v = ("proof-set", f"a JSON-LD document with {op['v'].get('nproofs')} proofs was accepted (exactly one signature is required)")
+            # the verification key is what the protocol's key source returns NOW: an accept although the (current) lookup failed means a
+            # key remembered from an earlier request was used (long-lived verifier / middleware / server objects)
+            if not v and line == "accept" and op.get("v", {}).get("keyfound") is False and c in ("dagtx", "jar", "vcjwt", "authzv1", "introspect", "parsejwt"):
+                v = ("stale-key", f"accepted although the key source has no key for this kid now ({cls}): a key resolved earlier was reused")
             if not v and c == "introspect" and line == "accept" and not op.get("v", {}).get("ownkey"):
                 v = ("foreign-key", "an access token whose kid is not one of this node's own keys was accepted by introspection")
             if not v and c == "dagtx" and line == "accept" and op.get("v", {}).get("framing") is False:
